@@ -14,7 +14,8 @@ VARS = {"c01": None,
 
 
 def run(ck):
-    cpucheck.run(ck, "C04", "cpu-c04", NOTE["c04"], variants=VARS["c04"])
+    cpucheck.run(ck, "C04", "cpu-c04", NOTE["c04"], variants=VARS["c04"],
+                 theorems=["MajoranaVerif.Props.C04"])
 
 
 def replay(ck, path):
